@@ -314,6 +314,49 @@ def handleSt (st : DrvState) (op : String) : P (DrvState × String) :=
       pure (st, outOptLines (parseDumpFile t st.strs[j]! ls))
   | _ => failure
 
+
+/-- `main`: the parsed argument namespace, in the field order of `Pel.Args` -/
+def pArgs : P Args := do
+  let path ← pOpt pText; let skipPlugins ← pBool; let file ← pOpt pText; let list ← pBool; let all ← pBool
+  let count ← pBool; let delete ← pOpt pText; let deleteAll ← pBool; let pelID ← pOpt pText; let bmcID ← pOpt pText
+  let plid ← pOpt pText; let src ← pOpt pText; let srcExclude ← pOpt pText; let hex ← pBool; let reverse ← pBool
+  let extension ← pOpt pText; let every ← pBool; let serviceable ← pBool; let nonServiceable ← pBool; let hidden ← pBool
+  let term ← pBool; let severities ← pList pText; let only ← pBool; let json ← pBool; let outputDir ← pOpt pText
+  let clean ← pBool
+  pure { path, skipPlugins, file, list, all, count, delete, deleteAll, pelID, bmcID, plid, src, srcExclude, hex, reverse,
+         extension, every, serviceable, nonServiceable, hidden, term, severities, only, json, outputDir, clean }
+
+def outOpt {α} (f : α → String) : Option α → String
+  | none => "0"
+  | some x => "1 " ++ f x
+
+def outExitSite : ExitSite → String
+  | .noPath => "noPath"
+  | .notDir p => "notDir " ++ outText p
+  | .noOutputDir d => "noOutputDir " ++ outText d
+  | .noExcludeFile f => "noExcludeFile " ++ outText f
+
+def outAction : Action → String
+  | .fileMode p c => "file " ++ outText p ++ " " ++ outBool c
+  | .exitMsg m => "exit " ++ outExitSite m
+  | .jsonMode d o c => "json " ++ outText d ++ " " ++ outText o ++ " " ++ outBool c
+  | .idMode d e => "id " ++ outText d ++ " " ++ outText e
+  | .bmcIdMode d n => "bmcid " ++ outText d ++ " " ++ outText n
+  | .plidMode d x => "plid " ++ outText d ++ " " ++ outText x
+  | .srcMode d v => "src " ++ outText d ++ " " ++ outText v
+  | .srcExcludeMode d f => "srcex " ++ outText d ++ " " ++ outText f
+  | .listMode d => "list " ++ outText d
+  | .countMode d => "count " ++ outText d
+  | .allMode d => "all " ++ outText d
+  | .deleteMode d e => "delete " ++ outText d ++ " " ++ outText e
+  | .deleteAllMode d => "deleteall " ++ outText d
+  | .nothing => "nothing"
+
+def outMainCfg (c : MainCfg) : String :=
+  " ".intercalate [outBool c.sel.every, outBool c.sel.term, outBool c.sel.serviceable, outBool c.sel.nonServiceable,
+    outBool c.sel.hidden, outBool c.sel.only, outBool c.sel.lookup, outList outNum c.sel.severities,
+    outBool c.allowPlugins, outBool c.hex, outBool c.rev, outOpt outText c.ext]
+
 def handle (op : String) : P String :=
   match op with
   | "ping" => pure "ok pong"
@@ -376,6 +419,15 @@ def handle (op : String) : P String :=
   | "selrow" => do
       let af ← pNum; let c ← pSelCfg; pEnd
       pure ("ok " ++ bits (fun sv => considerPEL sv af c) 256 ++ " " ++ bits (fun sv => selected sv af c) 256)
+  | "main" => do
+      -- parsed arguments, the paths for which isdir / isfile answer True, the top-level file names os.walk yields,
+      -- and what parseAndPrintPELFile returns
+      let a ← pArgs; let dirs ← pList pText; let files ← pList pText; let walk ← pList pText; let printed ← pBool; pEnd
+      let fs : FsView := { isDir := fun p => dirs.contains p, isFile := fun p => files.contains p }
+      let (act, cfg) := dispatch fs a
+      pure ("ok " ++ outAction act ++ " " ++ outMainCfg cfg ++ " " ++ outNum (mainExit act) ++ " " ++ outOpt outText (mainStderr act)
+        ++ " " ++ outList (fun c => outText c.1 ++ " " ++ outText c.2.1 ++ " " ++ outBool c.2.2) (jsonCalls cfg walk act)
+        ++ " " ++ outOpt outText (act.afterPrint printed))
   | _ => pure ("err unknown-op " ++ op)
 
 def handleLine (st : DrvState) (line : String) : DrvState × String :=
